@@ -16,13 +16,17 @@ CHECKS = {
             ("R-TABIDX.digit", "r_tables", "run_digit_index", ("quick", "thorough"))],
     "C16": [("R-TABLES.c16", "r_tables", "run_c16", ("quick", "thorough"))],
     "C10": [("R-TABLES.logic", "r_tables", "run_logic", ("quick", "thorough"))],
-    "C02": [("R-DIVZERO", "r_divzero", "run", ("quick", "thorough"))],
+    "C01": [("R-CONTRACT", "r_contract", "run", ("quick", "thorough")),
+            ("R-CONSTASSERT", "r_assert", "run_constassert", ("quick", "thorough"))],
+    "C02": [("R-DIVZERO", "r_divzero", "run", ("quick", "thorough")),
+            ("R-CONTRACT", "r_contract", "run", ("quick", "thorough"))],
     "C17": [("R-STREAM", "r_stream", "run", ("quick", "thorough")),
             ("R-TMP.io", "r_tmp", "run_io", ("quick", "thorough"))],
     "C14": [("R-PURE", "r_assert", "run_pure", ("quick", "thorough")),
             ("R-CONSTASSERT", "r_assert", "run_constassert", ("quick", "thorough")),
             ("R-TMP.modes", "r_tmp", "run_modes", ("quick", "thorough")),
-            ("R-ABI", "r_abi", "run", ("quick", "thorough"))],
+            ("R-ABI", "r_abi", "run", ("quick", "thorough")),
+            ("R-CONTRACT", "r_contract", "run", ("thorough",))],
 }
 
 # rule id -> (module, function) used by the mutation self-tests
@@ -40,6 +44,7 @@ RULES = {
     "R-TABLES.logic": ("r_tables", "run_logic"),
     "R-ABI": ("r_abi", "run"),
     "R-ALLOC.size": ("r_alloc", "run"),
+    "R-CONTRACT": ("r_contract", "run"),
     "R-ALIAS": ("r_alias", "run"),
     "R-ALIAS.mem": ("r_alias", "run_mem"),
     "R-TABIDX.digit": ("r_tables", "run_digit_index"),
@@ -77,6 +82,12 @@ EXPLANATION = {
     "C10": "Exhaustive (4 rows x 9 kernels) truth tables of the per-limb operator of the mpn logical functions, read off the "
            "typed AST of the kernels / MPN_LOGOPS_N_INLINE uses.  Narrow: the mpz-level two's-complement handling, scans and "
            "popcounts are value properties and are not decided.",
+    "C01": "Clause-level static analysis of the multiplication (and every other) size dispatch: at each of ~2100 call sites whose callee "
+           "declares a size domain in its entry assertions (n >= 17 for Toom-3, an >= 40 for Toom-8 squaring, bn >= 86 and 4an <= 13bn "
+           "for Toom-8.5, an >= 20 for the unbalanced Toom-3 variants, ...), the conditions that dominate the call are compared with "
+           "that domain (proved / refuted / undecided), under the built tuning table (quick) and all 21 shipped tables (thorough); plus "
+           "every compile-time-constant assertion (threshold-limit stack arrays) under each table.  Exactness of the products - carries, "
+           "interpolation, FFT coefficient bounds - is a limb-value property and is NOT decided.",
     "C02": "Static analysis of the division entry points: every public division / modulo / powm function of the manual tests its "
            "divisor for zero and reaches the intentional __gmp_divide_by_zero on the zero edge before any limb-level division "
            "routine, C division or inline-asm divide sees the divisor (guard block dominates every dangerous operation), or hands "
@@ -116,6 +127,10 @@ ASSUMPTIONS = {
                      "size agreement is equality of linear terms over value symbols; differing terms that involve a join symbol are undecided",
                      "a pointer passed to a library callee is not an ownership transfer; stores into caller-reachable memory and returns are",
                      "paths are partitioned on flag variables and on conditions over unmodified local scalars that are tested more than once"],
+    "R-CONTRACT": ["a callee's entry assertions (linear constraints over its parameters that dominate every exit) are its size domain; they are "
+                   "re-extracted from the -DWANT_ASSERT=1 export on every run", "caller knowledge = branch conditions whose edge dominates the call + the caller's own entry "
+                   "assertions; internal ASSERTs are claims and are not used", "refutation needs a bound established by a dispatch condition of the caller and no not-understood "
+                   "condition that could exclude the violating value; relational assertions are proved by a matching guard or left undecided"],
     "R-ALIAS": ["alias model of the manual: an output may be the same variable as any input of its type, two outputs are distinct, locals alias nothing; "
                 "static helpers inherit the aliasing their call sites in the unit can produce",
                 "public callees handle overlap between their own operands (the same rules applied to them)",
